@@ -3,6 +3,7 @@ package main
 
 import (
 	"fmt"
+	"os"
 	"reflect"
 	"strings"
 )
@@ -59,6 +60,9 @@ func c01Case(c *ctx, val interface{}, label string, seed uint64) bool {
 }
 
 func trunc(b []byte, n int) []byte {
+	if os.Getenv("HX_FULL") != "" {
+		return b
+	}
 	if len(b) > n {
 		return b[:n]
 	}
